@@ -133,16 +133,20 @@ func ticket() gmref.Item {
 	return gmref.Item{Name: "NewSessionTicket", Rec: gmref.RecHS, Build: func(p *gmref.Peer) []byte { return gmref.HS(4, []byte{0, 0, 0, 0, 0, 3, 1, 2, 3}) }}
 }
 
+func emptyCertificate() gmref.Item {
+	return gmref.Item{Name: "Certificate(empty)", Rec: gmref.RecHS, Build: func(p *gmref.Peer) []byte { return gmref.HS(gmref.HSCertificate, []byte{0, 0, 0}) }}
+}
+
 // ServerAlphabet: what a misbehaving server may put anywhere.
 func ServerAlphabet() []gmref.Item {
 	return []gmref.Item{gmref.ItemServerHello(), gmref.ItemCertificate(), gmref.ItemServerKX(), gmref.ItemCertRequest(), gmref.ItemServerDone(),
-		gmref.ItemCCS(), gmref.ItemFinished(), helloRequest(), unknownHS(), ticket(), appData(), emptyAppData(), warning(), gmref.ItemClientHello(), gmref.ItemClientKX()}
+		gmref.ItemCCS(), gmref.ItemFinished(), helloRequest(), unknownHS(), ticket(), appData(), emptyAppData(), warning(), gmref.ItemClientHello(), gmref.ItemClientKX(), emptyCertificate()}
 }
 
 // ClientAlphabet: what a misbehaving client may put anywhere.
 func ClientAlphabet() []gmref.Item {
 	return []gmref.Item{gmref.ItemClientHello(), gmref.ItemCertificate(), gmref.ItemClientKX(), gmref.ItemCertVerify(), gmref.ItemCCS(), gmref.ItemFinished(),
-		helloRequest(), unknownHS(), appData(), emptyAppData(), warning(), gmref.ItemServerHello(), gmref.ItemServerDone()}
+		helloRequest(), unknownHS(), appData(), emptyAppData(), warning(), gmref.ItemServerHello(), gmref.ItemServerDone(), emptyCertificate()}
 }
 
 // ---- conformance -------------------------------------------------------------------------------
